@@ -39,7 +39,7 @@ const findingF16 = "C21-F16"
 func TestMain(m *testing.M) {
 	evid.Rule("rapid draws a script as in C20 (1-2 interfaces, mixed IPv4/IPv6 conversations incl. non-decisive ones, 1-4 scheduled write-outs, idle intervals, malformed packets) plus pause events " +
 		"status | live query | scheduled write-out, each with per-interface window packets: optional 'pre', 0-5 'in' (90-420 in the overflow class with local buffer limits 1 B..8 KiB), optional 'post'; " +
-		"the twin script delivers the same packets just outside the windows; both scripts run in their own bubble; " +
+		"the twin script delivers the same packets just outside the windows; both scripts run in their own bubble; a third of the scripts run under the held-drain schedule (a capture that is about to drain its local buffer yields, through a step hook, until nothing else can run: the pause of the next interface and its window packets come first wherever the code permits); " +
 		"non-trivial = at least one IPv6 and one IPv4 packet that parse successfully were taken by the capture inside a pause window through the local buffer ('in' or 'post'); distinct by the script text")
 	evid.Assume("packets inside windows are IPv4 or IPv6 (truncated, runt and fragment packets included): layers that are neither are documented as untrackable while buffering (capture.go: 'We cannot track invalid IP header packets during buffering'), they are scripted outside windows only",
 		"a window packet counts as permissibly lost iff an overflow report (ErrLocalBufferOverflow on the capture's error channel, observed through the logger) appears when the capture takes it; after a report the capture stops polling until the unlock, "+
@@ -340,7 +340,7 @@ func popcount(x int) (n int) {
 }
 
 func run(t *testing.T, rt *rapid.T, excluding bool) {
-	s := capharness.DrawScript(rt, capharness.Options{Windows: true, V6InWindows: !excluding, OverflowClass: true, Ambiguous: true,
+	s := capharness.DrawScript(rt, capharness.Options{Windows: true, V6InWindows: !excluding, OverflowClass: true, Ambiguous: true, HoldDrain: true,
 		OnExcluded: func() { evid.Excluded(findingF16) }})
 	canon := s.Canon()
 	fatal := func(f *capharness.Failure, extra string) {
